@@ -308,8 +308,13 @@ esl_msafile_a2m_Read(ESL_MSAFILE *afp, ESL_MSA **ret_msa)
       {
         ESL_ALLOC(csflag[nseq], sizeof(char) * 1);
         csflag[nseq][0] = TRUE;                       // csflag[] needs a sentinel even if there's no seq; make one.
-        ESL_ALLOC(msa->ax[nseq], sizeof(ESL_DSQ) * 2);
-        msa->ax[nseq][0] = msa->ax[nseq][1] = eslDSQ_SENTINEL;
+        if (msa->abc) {
+          ESL_ALLOC(msa->ax[nseq], sizeof(ESL_DSQ) * 2);
+          msa->ax[nseq][0] = msa->ax[nseq][1] = eslDSQ_SENTINEL;
+        } else {                                      // text mode: ax[] is NULL; it's aseq[] that needs an empty seq
+          ESL_ALLOC(msa->aseq[nseq], sizeof(char) * 1);
+          msa->aseq[nseq][0] = '\0';
+        }
       }
 
     if (nseq == 0) 
